@@ -354,6 +354,10 @@ def r10_r11(tree, rep):
 
 
 def run(tree, rep, tier):
+    from .. import round9 as _r9
+    _r9.chain_keeps_failure(tree, rep, "C04.R12", "src/wormhole/cli/cmd_receive.py", "Receiver", "go", "self._go")
+    _r9.chain_keeps_failure(tree, rep, "C04.R12", "src/wormhole/cli/cmd_send.py", "Sender", "go", "self._go")
+    _r9.every_member_extracted(tree, rep, "C04.R13")
     # a failure while unpacking one member (disk full, refused write) is a failed transfer: no handler in _extract_file / _write_directory turns
     # an exception of zf.extract / os.chmod / open / os.rename into a normal return
     from ..ctxmgr import swallowing_handlers
